@@ -516,8 +516,8 @@ type crewQueue struct {
 	loop *flow.Loop     // the dequeue loop
 }
 
-func findCrewQueue(pm *ssa.Function) *crewQueue {
-	w := newSliceWeb(pm)
+func findCrewQueue(p *prog.Program, pm *ssa.Function) *crewQueue {
+	w := newSliceWebDeep(p, pm)
 	loops := flow.Loops(pm)
 	var out *crewQueue
 	ssau.Instrs(pm, func(in ssa.Instruction) {
@@ -549,43 +549,88 @@ func crewEmitted(c *Ctx, rule string) {
 		return
 	}
 	c.R.Fn(fname(pm))
-	cq := findCrewQueue(pm)
+	cq := findCrewQueue(c.P, pm)
 	if cq == nil {
 		c.R.Break("%s: cannot find the pending queue of ProcessMsg (no slice of messages indexed inside a loop)", rule)
 		return
 	}
 	w := cq.web
-	loops := flow.Loops(pm)
-	// perMachine: the innermost loop of ProcessMsg around the block, checks that the gathering starts on every trip
+	loopsOf := map[*ssa.Function][]*flow.Loop{}
+	loopsIn := func(f *ssa.Function) []*flow.Loop {
+		if _, ok := loopsOf[f]; !ok {
+			loopsOf[f] = flow.Loops(f)
+		}
+		return loopsOf[f]
+	}
+	// perMachine: the per-machine loop around the block that starts the gathering — in ProcessMsg, or in a helper
+	// that ProcessMsg's dequeue loop reaches through calls made from one place each (the frame) —, and checks
+	// that the gathering starts on every trip.  A gathering that sits in a helper without a loop of its own (the
+	// helper handles one walk) is judged at the call of that helper.
 	type gathered struct {
-		ok  bool
-		why string
+		ok    bool
+		why   string
+		frame *ssa.Function // the function that holds the per-machine loop
+		loop  *flow.Loop    // the per-machine loop
 	}
 	perMachine := func(anchor *ssa.BasicBlock, walked ssa.Value) gathered {
-		if anchor == nil || anchor.Parent() != pm {
-			return gathered{why: "the enumeration of emitted messages does not start in ProcessMsg"}
-		}
-		// the loop over the walkeds: innermost loop containing the anchor whose header is not the anchor itself
-		var L *flow.Loop
-		for _, l := range enclosingLoops(loops, anchor) {
-			if l.Header != anchor {
-				L = l
+		for depth := 0; depth < 4; depth++ {
+			if anchor == nil {
 				break
 			}
-		}
-		if L == nil || L == cq.loop {
-			return gathered{why: "emitted messages are not gathered inside a loop over the walked machines"}
-		}
-		for _, latch := range L.Latch {
-			if !anchor.Dominates(latch) {
-				return gathered{why: "emitted messages are not gathered for every walked machine"}
+			F := anchor.Parent()
+			if F != pm && w.site[F] == nil {
+				break
 			}
+			// the loop over the walkeds: innermost loop containing the anchor whose header is not the anchor itself
+			var L *flow.Loop
+			for _, l := range enclosingLoops(loopsIn(F), anchor) {
+				if l.Header != anchor {
+					L = l
+					break
+				}
+			}
+			if L == nil && F != pm {
+				// the helper gathers for the one walk it is given, on every way through it: judged at its call
+				cl := w.site[F]
+				for _, b := range F.Blocks {
+					if _, isRet := b.Instrs[len(b.Instrs)-1].(*ssa.Return); isRet && !anchor.Dominates(b) {
+						return gathered{why: "helper " + F.Name() + " can return without gathering the emitted messages"}
+					}
+				}
+				par, isPar := walked.(*ssa.Parameter)
+				if !isPar || par.Parent() != F {
+					return gathered{why: "helper " + F.Name() + " does not enumerate the walk it is given"}
+				}
+				for i, hp := range F.Params {
+					if hp == par && i < len(cl.Common().Args) {
+						walked = stripDeref(cl.Common().Args[i])
+					}
+				}
+				anchor = cl.Block()
+				continue
+			}
+			if L == nil || L == cq.loop {
+				return gathered{why: "emitted messages are not gathered inside a loop over the walked machines"}
+			}
+			if F != pm {
+				// the helper that holds the per-machine loop is run by the dequeue loop
+				site := w.liftTo(pm, w.site[F])
+				if site == nil || !cq.loop.Blocks[site.Block()] {
+					return gathered{why: "the enumeration of emitted messages does not start in ProcessMsg's loop"}
+				}
+			}
+			for _, latch := range L.Latch {
+				if !anchor.Dominates(latch) {
+					return gathered{why: "emitted messages are not gathered for every walked machine"}
+				}
+			}
+			wi, isIn := walked.(ssa.Instruction)
+			if !isIn || wi.Parent() != F || !L.Blocks[wi.Block()] {
+				return gathered{why: "the walk whose messages are gathered is not the loop's current machine"}
+			}
+			return gathered{ok: true, frame: F, loop: L}
 		}
-		wi, isIn := walked.(ssa.Instruction)
-		if !isIn || !L.Blocks[wi.Block()] {
-			return gathered{why: "the walk whose messages are gathered is not the loop's current machine"}
-		}
-		return gathered{ok: true}
+		return gathered{why: "the enumeration of emitted messages does not start in ProcessMsg"}
 	}
 	// ---- re-queue: pushes into the pending web inside the dequeue loop
 	requeues := 0
@@ -599,13 +644,13 @@ func crewEmitted(c *Ctx, rule string) {
 		ok, why := false, ""
 		switch {
 		case spread != nil:
-			bi := batchOf(c.P, spread, 0)
+			bi := batchOfIn(c.P, w, spread, 0)
 			ok, why = bi.ok, "the re-queued batch "+bi.why
 			if bi.ok {
 				g := perMachine(bi.anchor, bi.walked)
 				ok, why = g.ok, g.why
 				if ok {
-					L := flow.InnermostLoop(loops, ap.Block())
+					L := flow.InnermostLoop(loopsIn(ap.Parent()), ap.Block())
 					if L == nil || !lenGuardOnly(w, spread, ap.Block(), L) {
 						ok, why = false, "the batch is re-queued only conditionally"
 					}
@@ -630,7 +675,7 @@ func crewEmitted(c *Ctx, rule string) {
 	c.R.Check(requeues == 1, rule, "ProcessMsg:one re-queue site", c.P.Pos(pm.Pos()), "one append to the pending queue per emitted message", fmt.Sprintf("expected exactly one place that re-queues emitted messages, found %d", requeues))
 	// ---- report: appends to Result.Emitted
 	found := 0
-	for _, f := range ssau.WithAnon(pm) {
+	for _, f := range w.fns {
 		ssau.Instrs(f, func(in ssa.Instruction) {
 			call, ok := in.(*ssa.Call)
 			if !ok {
@@ -646,23 +691,28 @@ func crewEmitted(c *Ctx, rule string) {
 			if spread != nil || len(elems) != 1 {
 				why = "something other than one batch is reported"
 			} else {
-				bi := batchOf(c.P, elems[0], 0)
+				bi := batchOfIn(c.P, w, elems[0], 0)
 				ok2, why = bi.ok, "the reported batch "+bi.why
+				var g gathered
 				if bi.ok {
-					g := perMachine(bi.anchor, bi.walked)
+					g = perMachine(bi.anchor, bi.walked)
 					ok2, why = g.ok, g.why
 				}
 				if ok2 {
-					L := flow.InnermostLoop(loops, call.Block())
+					L := flow.InnermostLoop(loopsIn(call.Parent()), call.Block())
 					switch {
-					case call.Parent() != pm || L == nil:
+					case call.Parent() != g.frame || L == nil:
 						ok2, why = false, "the batch is not reported from the per-machine loop"
 					case !lenGuardOnly(w, elems[0], call.Block(), L):
 						ok2, why = false, "a non-empty batch may go unreported"
 					default:
 						for _, o := range bi.origin {
+							// storage made in a helper that the loop calls is made on that call
 							oi, isIn := o.(ssa.Instruction)
-							if !isIn || oi.Parent() != pm || !L.Blocks[oi.Block()] {
+							if isIn {
+								oi = w.liftTo(g.frame, oi)
+							}
+							if !isIn || oi == nil || !L.Blocks[oi.Block()] {
 								ok2, why = false, fmt.Sprintf("batch storage %s is created outside the per-machine loop (batches of different machines would share memory)", o.Name())
 							}
 						}
@@ -679,10 +729,23 @@ func crewEmitted(c *Ctx, rule string) {
 
 // sliceOrigins: the allocation instructions (make / append growth is ignored) a slice value may start from.
 func sliceOrigins(v ssa.Value, seen map[ssa.Value]bool) []ssa.Value {
+	return sliceOriginsIn(nil, v, seen)
+}
+
+// sliceOriginsIn: sliceOrigins within a deep slice web (w may be nil): loads of the fields of a local struct and
+// values that pass through a single-call helper are followed too.
+func sliceOriginsIn(w *sliceWeb, v ssa.Value, seen map[ssa.Value]bool) []ssa.Value {
 	if seen[v] {
 		return nil
 	}
 	seen[v] = true
+	if from, ok := w.deepOrigins(v); ok {
+		var out []ssa.Value
+		for _, f := range from {
+			out = append(out, sliceOriginsIn(w, f, seen)...)
+		}
+		return out
+	}
 	switch x := v.(type) {
 	case *ssa.MakeSlice:
 		return []ssa.Value{x}
@@ -696,7 +759,7 @@ func sliceOrigins(v ssa.Value, seen map[ssa.Value]bool) []ssa.Value {
 		_ = collect
 		for _, r := range ssau.Referrers(x) {
 			if st, ok := r.(*ssa.Store); ok && st.Addr == ssa.Value(x) {
-				out = append(out, sliceOrigins(st.Val, seen)...)
+				out = append(out, sliceOriginsIn(w, st.Val, seen)...)
 			}
 			if mc, ok := r.(*ssa.MakeClosure); ok {
 				fn := mc.Fn.(*ssa.Function)
@@ -704,7 +767,7 @@ func sliceOrigins(v ssa.Value, seen map[ssa.Value]bool) []ssa.Value {
 					if b == ssa.Value(x) && i < len(fn.FreeVars) {
 						for _, r2 := range ssau.Referrers(fn.FreeVars[i]) {
 							if st, ok := r2.(*ssa.Store); ok && st.Addr == ssa.Value(fn.FreeVars[i]) {
-								out = append(out, sliceOrigins(st.Val, seen)...)
+								out = append(out, sliceOriginsIn(w, st.Val, seen)...)
 							}
 						}
 					}
@@ -713,20 +776,20 @@ func sliceOrigins(v ssa.Value, seen map[ssa.Value]bool) []ssa.Value {
 		}
 		return out
 	case *ssa.UnOp:
-		return sliceOrigins(x.X, seen)
+		return sliceOriginsIn(w, x.X, seen)
 	case *ssa.Slice:
-		return sliceOrigins(x.X, seen)
+		return sliceOriginsIn(w, x.X, seen)
 	case *ssa.Phi:
 		var out []ssa.Value
 		for _, e := range x.Edges {
-			out = append(out, sliceOrigins(e, seen)...)
+			out = append(out, sliceOriginsIn(w, e, seen)...)
 		}
 		return out
 	case *ssa.FreeVar:
 		return nil
 	case *ssa.Call:
 		if b, ok := x.Common().Value.(*ssa.Builtin); ok && b.Name() == "append" {
-			return sliceOrigins(x.Common().Args[0], seen)
+			return sliceOriginsIn(w, x.Common().Args[0], seen)
 		}
 		return []ssa.Value{x}
 	}
@@ -997,25 +1060,66 @@ func c08Mcrew(c *Ctx) {
 				ok, why = false, "the send is made from a goroutine: messages of one action can be reported out of order (and a loop variable shared by the goroutines can be reported several times)"
 			}
 		}
-		// inside a loop over Events.Emitted, sending that loop's element
+		// inside a loop over Events.Emitted, sending that loop's element; a send that sits in a helper which is
+		// handed the message is judged at every call of that helper
 		if ok {
-			inLoop := false
-			for _, l := range enclosingLoops(flow.Loops(f), in.Block()) {
-				if op := loopOperand(l); op != nil {
-					if _, is := ssau.LoadOfField(op, prog.Abs("core"), "Events", "Emitted"); is || strings.Contains(op.String(), "Emitted") {
-						inLoop = true
-					}
-				}
-			}
-			if !inLoop {
-				ok, why = false, "the send is not inside the loop over a stride's emitted messages"
-			}
+			ok, why = c08InEmittedLoop(in, st.val, fns, goBodies, 0)
 		}
 		c.R.Check(ok, "C08-R7", fmt.Sprintf("%s: hand-over to Service.Emitted #%d", fname(f), n), c.pos(in), "sent by Process itself, in emission order", why)
 	}
 	if n == 0 {
 		c.R.Break("C08-R7: mcrew never sends on Service.Emitted")
 	}
+}
+
+// c08InEmittedLoop: the instruction (a send of val, or a call that leads to one) runs inside a loop over a stride's
+// Emitted — in its own function, or, when it sits in an unexported helper that sends the message it is handed, at
+// every call of that helper (none of them a go statement or inside a goroutine started by Process).
+func c08InEmittedLoop(in ssa.Instruction, val ssa.Value, fns []*ssa.Function, goBodies map[*ssa.Function]bool, depth int) (bool, string) {
+	const notIn = "the send is not inside the loop over a stride's emitted messages"
+	f := in.Parent()
+	for _, l := range enclosingLoops(flow.Loops(f), in.Block()) {
+		if op := loopOperand(l); op != nil {
+			if _, is := ssau.LoadOfField(op, prog.Abs("core"), "Events", "Emitted"); is || strings.Contains(op.String(), "Emitted") {
+				return true, ""
+			}
+		}
+	}
+	if flow.InCycle(in.Block()) {
+		return false, notIn // in some other loop: not once per emitted message
+	}
+	par, isPar := val.(*ssa.Parameter)
+	if !isPar || par.Parent() != f || f.Parent() != nil || depth > 2 || (f.Object() != nil && f.Object().Exported()) {
+		return false, notIn
+	}
+	pi := -1
+	for i, fp := range f.Params {
+		if fp == par {
+			pi = i
+		}
+	}
+	sites := callSitesOf(f, fns)
+	if len(sites) == 0 || pi < 0 {
+		return false, notIn
+	}
+	for _, site := range sites {
+		if _, isCall := site.(*ssa.Call); !isCall {
+			return false, "the send is made from a goroutine (or deferred): messages of one action can be reported out of order"
+		}
+		for g := site.Parent(); g != nil; g = g.Parent() {
+			if goBodies[g] {
+				return false, "the send is made from a goroutine: messages of one action can be reported out of order (and a loop variable shared by the goroutines can be reported several times)"
+			}
+		}
+		args := site.Common().Args
+		if pi >= len(args) {
+			return false, notIn
+		}
+		if ok, why := c08InEmittedLoop(site, args[pi], fns, goBodies, depth+1); !ok {
+			return false, why
+		}
+	}
+	return true, ""
 }
 
 // sendSite: a place where a message is sent on Service.Emitted — the send itself, or the call of a helper that
